@@ -9,9 +9,9 @@ import (
 func (w *World) Actions() map[string]func(*rapid.T) {
 	return map[string]func(*rapid.T){
 		"encrypt": func(t *rapid.T) {
-			p := w.pickProc("proc")
-			part := w.pickPart("part")
-			s, fresh := w.sessionFor(p, part, false)
+			p := w.PickProc("proc")
+			part := w.PickPart("part")
+			s, fresh := w.SessionFor(p, part, false)
 			payload := w.drawPayload()
 			viaStore := rapid.IntRange(0, 9).Draw(t, "viaStore") == 0
 			w.Encrypt(s, payload, viaStore, fresh)
@@ -24,8 +24,8 @@ func (w *World) Actions() map[string]func(*rapid.T) {
 				t.Skip("no records yet")
 			}
 			rec := w.pickRec()
-			p := w.pickProc("proc")
-			s, fresh := w.sessionFor(p, rec.Partition, false)
+			p := w.PickProc("proc")
+			s, fresh := w.SessionFor(p, rec.Partition, false)
 			viaLoad := rapid.IntRange(0, 9).Draw(t, "viaLoad") == 0
 			w.Decrypt(s, rec, viaLoad, fresh)
 			if fresh && rapid.IntRange(0, 99).Draw(t, "closeAfter") < 50 {
@@ -33,7 +33,7 @@ func (w *World) Actions() map[string]func(*rapid.T) {
 			}
 		},
 		"open": func(t *rapid.T) {
-			w.Open(w.pickProc("proc"), w.pickPart("part"))
+			w.Open(w.PickProc("proc"), w.PickPart("part"))
 		},
 		"close": func(t *rapid.T) {
 			var open []*Sess
@@ -46,24 +46,24 @@ func (w *World) Actions() map[string]func(*rapid.T) {
 			w.CloseSess(open[rapid.IntRange(0, len(open)-1).Draw(t, "sess")])
 		},
 		"restart": func(t *rapid.T) {
-			w.Restart(w.pickProc("proc"))
+			w.Restart(w.PickProc("proc"))
 		},
 		"advance": func(t *rapid.T) {
-			w.Advance(w.DrawAdvance(w.pickProc("policyOf")))
+			w.Advance(w.DrawAdvance(w.PickProc("policyOf")))
 		},
 		"revoke": func(t *rapid.T) {
 			w.DrawRevoke()
 		},
 		"rotate": func(t *rapid.T) {
-			w.ExternalRotate(w.pickPart("part"), rapid.IntRange(0, 2).Draw(t, "newSK") == 0)
+			w.ExternalRotate(w.PickPart("part"), rapid.IntRange(0, 2).Draw(t, "newSK") == 0)
 		},
 		"pressure": func(t *rapid.T) {
 			// touch several partitions on one process to create eviction pressure
-			p := w.pickProc("proc")
+			p := w.PickProc("proc")
 			ev := w.begin("pressure", p, nil, "")
 			w.end(ev)
 			for _, part := range w.Parts {
-				s, fresh := w.sessionFor(p, part, true)
+				s, fresh := w.SessionFor(p, part, true)
 				w.Encrypt(s, []byte("pressure"), false, fresh)
 			}
 		},
@@ -87,7 +87,7 @@ func (w *World) DrawRevoke() bool {
 	t := w.T
 	switch rapid.IntRange(0, 9).Draw(t, "revokeWhat") {
 	case 0, 1, 2, 3, 4: // latest IK of a partition
-		id := w.IKID(w.pickPart("part"))
+		id := w.IKID(w.PickPart("part"))
 		r := w.Store.Latest(id)
 		if r == nil {
 			t.Skip("no IK yet")
